@@ -373,7 +373,7 @@ def _rand_rel(rng, malformed=False):
     size = rng.choice([2, 3, 4, 6, 9, 14, 20, 30])
     shape = core.random_shape(rng, size)
     spec = _label_rel(shape, rng, rng.choice([U.NAME_FAMILY, ["x", "y"], ["l%d" % i for i in range(40)]]))
-    cols = [] if lib == "list" else rng.choice([[], ["v"], ["v", "w"], ["age", "f"], ["w"], ["g"], ["v", "g"]])
+    cols = [] if lib == "list" else rng.choice([[], ["v"], ["v", "w"], ["age", "f"], ["w"], ["g"], ["v", "g"], ["first name", "class"], ["2024"]])
     rows = _rel_rows_of(spec, cols, rng)
     rng.shuffle(rows)
     tags = ["rel", "lib=" + lib]
